@@ -26,12 +26,12 @@ NOTES = {
     'C03': ('IInv (refs = exactly the items with the index key attributes; sortedKeys = sorted multiset of index keys) for every reachable state, index creation with backfill included',
             'no side condition on the history (UpdateTable can not re-type a key attribute: fix c854008); index ItemCount = number of indexed items'),
     'C05': ('condition locality (only the item under the request key is read) and atomicity of refused writes, for every interpreter', ''),
-    'C08': ('every failing single-request data operation returns the state unchanged; writes are all-or-nothing over base table and indexes; rejected batches are rejected before any write', 'batch writes that succeed partially under an emulated internal-server failure report the rest as unprocessed (not an error result)'),
+    'C08': ('every failing single-request data operation returns the state unchanged; writes are all-or-nothing over base table and indexes; rejected batches are rejected before any write; every failing BatchWriteItem of any reachable client (no failure emulated) has changed nothing', 'batch writes that succeed partially under an emulated internal-server failure report the rest as unprocessed (not an error result)'),
     'C15': ('active failure => configured error and unchanged state for every single data call; toggles change only the flag; activate/calls/deactivate is the identity; a BatchWriteItem under the internal-server failure returns every request of every table as unprocessed and changes nothing, for any batch; under the deprecated forced failure it fails as a whole whatever it holds; the identity also holds for episodes that contain batch writes', 'TransactWriteItems answers ErrForcedFailure whatever condition is configured (known finding)'),
     'C13': ('key injectivity (hash-only S/N schemas; dot-free hash values), a key is rejected iff a key attribute is missing or ill-typed, every stored item is filed under the key string of its own key attributes (reachable states of histories whose updates keep key attributes), the schema check demands key types S/N/B and the key attributes of every table have one in every reachable state',
             'known findings: "." separator collisions (C13-1), UpdateItem may rewrite a key attribute (C13-2, the existing suite relies on it), BatchGetItem keeps malformed keys as unprocessed (C13-3)'),
     'C20': ('registration key equality <=> same word sequence under the four white-space characters of the language, for every table name and expression (length-prefixed key, injective); exact dispatch; fallback on a miss; update miss = Unsupported with the table untouched', ''),
-    'C19': ('a batch of succeeding write requests = the fold of the single operations (one table, several tables); BatchGetItem answers per table with exactly the items of the individual GetItem calls; an invalid table entry or an unknown table rejects the whole call', 'known findings: absent keys and malformed keys are reported as unprocessed (the existing suite relies on it); the SDK v1 client has no BatchGetItem'),
+    'C19': ('a batch of succeeding write requests = the fold of the single operations (one table, several tables); closure without hypotheses: a BatchWriteItem that answers success with nothing unprocessed has left exactly the fold of its single requests, each succeeding where it is performed; the up-front validation alone decides which batches succeed; BatchGetItem answers per table with exactly the items of the individual GetItem calls; an invalid table entry or an unknown table rejects the whole call', 'known findings: absent keys and malformed keys are reported as unprocessed (the existing suite relies on it); the SDK v1 client has no BatchGetItem'),
     'C16': ('reserved words (573, generated) rejected in every token position of every expression of a request, in any letter case; undefined, unused and malformed placeholders; batch limit 25 exact in both clients; write-request shape', 'known findings C16-1..3 (placeholder usage is a substring test, key-condition shape unchecked)'),
     'C18': ('table frame (an operation on table A leaves table B untouched), ItemCount = number of stored items in every reachable state', ''),
 }
